@@ -559,7 +559,126 @@ def r15(ctx):
                'read for the parts from %s on%s' % (loop_from, ' and for part 0' if const0 else ''))
 
 
+def r16(ctx):
+    ctx.rule('C09.R16', 'NN is set before the telegram is used: where a function of message.cpp builds a telegram with a '
+             'placeholder length (push_back(0), "set later") and sets it with adjustHeader(), the telegram is compared with, '
+             'assigned to or stored as last data (m_last*Data, storeLastData) only behind that adjustHeader() - the cached '
+             'copy of an answer prepared in answer mode would otherwise keep NN=0 and decodeLastData fails on it', minimum=3)
+    fb = ctx.fb
+    n = 0
+    seen = set()
+    for fn in fb.functions:
+        if not fn.relfile.startswith('src/lib/ebus/message.') or not fn.nodes or (fn.name, fn.sig) in seen:
+            continue
+        seen.add((fn.name, fn.sig))
+        adj = {}
+        for c in fn.calls('adjustHeader'):
+            if 'obj' in fn.nodes[c]:
+                adj.setdefault(fn.key(fn.nodes[c]['obj']).lstrip('*'), set()).add(c)
+        if not adj:
+            continue
+        for x, adjs in sorted(adj.items()):
+            ph = [c for c in fn.calls('push_back') if 'obj' in fn.nodes[c] and fn.key(fn.nodes[c]['obj']).lstrip('*') == x and
+                  fn.nodes[c].get('args') and fn.val(fn.nodes[c]['args'][0]) == 0]
+            if not ph:
+                continue
+            uses = []
+            for nid, d, rhs, op, lhs in fn.assignments():
+                if rhs is not None and lhs is not None and fn.key(rhs).lstrip('*') == x and fn.key(lhs).startswith('this.'):
+                    uses.append((nid, 'stored as %s' % fn.key(lhs)))
+            for c in fn.calls():
+                v = fn.nodes[c]
+                keys = [fn.key(a).lstrip('*') for a in v.get('args', [])]
+                last = (v.get('callee') or '').split('::')[-1]
+                if v['k'] == 'CXXOperatorCallExpr' and v.get('op') in ('==', '!=') and x in keys:
+                    uses.append((c, 'compared (%s)' % fn.key(c)[:50]))
+                elif last == 'storeLastData' and x in keys:
+                    uses.append((c, 'handed to storeLastData'))
+            for u, what in uses:
+                if fn.block_of(u) is None:
+                    continue
+                ctx.touch(fn)
+                n += 1
+                early = any(fn.reaches_point(fn.pos(p_)[0], fn.pos(u), adjs, start_idx=fn.pos(p_)[1] + 1) for p_ in ph)
+                ctx.ob('C09.R16', fn, u, not early, 'telegram %s %s in %s' % (x, what, fn.name.split('::', 1)[1]),
+                       'only behind %s.adjustHeader(): %s' % (x, not early))
+    if n < 3:
+        raise AnalysisBroken('C09.R16: only %d uses of a telegram built with a placeholder length found' % n)
+
+
+def r17(ctx):
+    ctx.rule('C09.R17', 'a chained read that starts over forgets the arrival times of ALL parts: where '
+             'ChainedMessage::prepareMasterPart prepares part 0 it resets both time vectors (master and slave) over the whole '
+             'part count - by an element store of 0 in a loop bounded by the number of parts, or by a memset/fill whose size is '
+             'that count times the element size; a reset that covers fewer bytes leaves the times of the later parts, and the '
+             'parts of the new round are joined with stale parts of the previous one', minimum=2)
+    fb = ctx.fb
+    fn = fb.fn('ebusd::ChainedMessage::prepareMasterPart')
+    ctx.touch(fn)
+    comb = fb.fn('ebusd::ChainedMessage::combineLastParts')
+    arrays = {}
+    for f in (fn, comb):
+        for x, v in f.nodes.items():
+            if v['k'] == 'ArraySubscriptExpr' and 'base' in v or v['k'] == 'ArraySubscriptExpr':
+                k = f.key(x)
+                if k.startswith('this.m_last') and 'UpdateTimes[' in k:
+                    arrays[k.split('[')[0]] = v.get('w') or 64
+    if len(arrays) < 2:
+        raise AnalysisBroken('C09.R17: the arrival time vectors of ChainedMessage were not recognised')
+
+    def is_count(x):
+        cnts = ('this.m_ids.size()', 'this.getCount()', 'this.m_lengths.size()')
+        return fn.xkey(x) in cnts or fn.key(x) in cnts
+    loops = {}
+    for f in fn.all('ForStmt'):
+        v = fn.nodes[f]
+        if v.get('cond') is None or v.get('body') is None:
+            continue
+        c = fn.nodes[fn.strip(v['cond'], casts=True)]
+        full = c.get('k') == 'BinaryOperator' and c.get('op') == '<' and is_count(c['rhs'])
+        start0 = v.get('init') is not None and any(fn.nodes[y]['k'] == 'DeclStmt' and any(
+            d.get('init') is not None and fn.val(d['init']) == 0 for d in fn.nodes[y].get('decls', [])) for y in fn.walk(v['init']))
+        for y in fn.walk(v['body']):
+            loops[y] = full and start0
+    for arr, w in sorted(arrays.items()):
+        sites = []
+        for nid, d, rhs, op, lhs in fn.assignments():
+            if lhs is None or not fn.key(lhs).startswith(arr + '['):
+                continue
+            r = rhs
+            while r is not None and fn.nodes[fn.strip(r, casts=True)].get('k') == 'BinaryOperator' and fn.nodes[fn.strip(r, casts=True)].get('op') == '=':
+                r = fn.nodes[fn.strip(r, casts=True)]['rhs']
+            if r is None or fn.val(r) != 0:
+                continue
+            if ('(index == #0)', True) not in set((a[0], a[1]) for a in fn.atoms(nid)) and \
+                    ('(%s == #0)' % fn.P(0), True) not in set((a[0], a[1]) for a in fn.atoms(nid)):
+                continue
+            sites.append((nid, bool(loops.get(nid)), 'element store in a loop over all parts'))
+        for c in fn.calls('memset', 'fill_n', 'fill', 'bzero'):
+            v = fn.nodes[c]
+            args = v.get('args', [])
+            if not args or fn.key(fn.strip(args[0], casts=True)) != arr:
+                continue
+            last = (v.get('callee') or '').split('::')[-1]
+            ok = False
+            if last == 'memset' and len(args) == 3:
+                sz = fn.nodes[fn.strip(args[2], casts=True)]
+                if sz.get('k') == 'BinaryOperator' and sz.get('op') == '*':
+                    a, b = sz['lhs'], sz['rhs']
+                    ok = (is_count(a) and fn.val(b) == w // 8) or (is_count(b) and fn.val(a) == w // 8)
+            elif last == 'fill_n' and len(args) == 3:
+                ok = is_count(args[1]) and fn.val(args[2]) == 0
+            sites.append((c, ok, '%s over count * element size' % last))
+        if not sites:
+            ctx.ob('C09.R17', fn, fn.body, False, 'reset of %s for part 0' % arr, 'no reset found')
+            continue
+        for nid, ok, how in sites:
+            ctx.ob('C09.R17', fn, nid, ok, 'reset of %s for part 0' % arr, '%s: %s' % (how, ok))
+
+
 def run(ctx):
+    r16(ctx)
+    r17(ctx)
     r15(ctx)
     r14(ctx)
     file_state_rule(ctx, 'C09.R13')
